@@ -110,7 +110,7 @@ def gen_values(ctx, shapes):
         vals.append(lst)
         vals.append({'k': lst, 'z': [1, 2, lst[-1]]})
     # C. special scalars and empty containers
-    vals += [[], {}, [[]], [{}], {'a': []}, {'a': {}, 'b': [[], {}]}, [0, -1, 1.0, -2.5, 1e22, 1e-7, True, False, None, ''],
+    vals += [[], {}, [[]], [{}], {'a': []}, {'a': {}, 'b': [[], {}]}, [0, -1, 1.0, -2.5, 1e22, 1e-7, 1e+20, 2.5e-10, 7e+100, -3e+30, 2.0, 100.0, True, False, None, ''],
              {'€uro': 'é', 'Z': 1, 'a': 2, 'B': 3, 'aa': 4, '': 5, ' ': 6}, [[1, [2, [3, [4, [5]]]]]], 'just a string', 12, None]
     # D. TLC-enumerated shapes, scaled
     pads = (1, 60, 190) if ctx.quick else (1, 30, 60, 95, 190)
@@ -120,6 +120,16 @@ def gen_values(ctx, shapes):
                 continue
             vals.append(scale(sh, p, [i]))
     return vals
+
+
+def shared_values():
+    """data in which one and the same object occurs several times (equal data must print the same)"""
+    row = {'a': 1, 'b': 'x'}
+    lst = [1, 'two', None]
+    long_row = {'k%d' % i: 'v' * 20 for i in range(12)}
+    nested = {'in': {'x': [1, 2]}, 'y': 0}
+    return [[row, row], [row] * 3, {'p': row, 'q': row, 'r': [row]}, [lst, lst], {'a': lst, 'b': [lst, lst]},
+            [long_row, long_row], [nested, nested, row], [[], []] * 2, [{}, {}]]
 
 
 def shuffle_dicts(v, rnd):
@@ -143,6 +153,7 @@ def run(ctx):
     if len(shapes) < 1000:
         raise Machinery('PPJsonCases emitted %d shapes' % len(shapes))
     vals = [shuffle_dicts(v, ctx.rnd) for v in gen_values(ctx, shapes)]
+    vals += shared_values()          # after the shuffle, which would copy the shared objects
     printers = {True: PrettyPrinter(fmt_json=True), False: PrettyPrinter(fmt_json=False)}
     cases, meta = [], []
     crosscheck_bad = 0
